@@ -3,8 +3,6 @@
 (* every plan up to MaxLen, for replay through TrajectoryExporter.          *)
 EXTENDS PlanFamily, Json, IOUtils
 
-DomTree == TreeOfDomain([name |-> D.name, reqs |-> <<":typing">>, typeDecl |-> D.typeDecl, consts |-> <<>>,
-                         preds |-> D.preds, funcs |-> D.funcs, actions |-> D.actions], "each", FALSE)
 InitSeq == SetToSeq(Inits)
 ProbTree(i) ==
   TreeOfProblem([name |-> "pp", domain |-> D.name, objs |-> <<<<"a", "t1">>, <<"b", "t1">>>>,
